@@ -554,6 +554,20 @@ func (d *decoderBase) detach2Bytes(in []byte, state dBytesAttachState) (out []by
 	return out
 }
 
+// sideDecodeInput returns the bytes which a side Decoder (SelfExt) may decode from.
+//
+// The side Decoder shares the Handle: with ZeroCopy, the strings and []byte it produces
+// are views of its input. That input must then be a view of this Decoder's input []byte,
+// never of the reader's buffer or of scratch memory (which the next read overwrites).
+func (d *decoderBase) sideDecodeInput(in []byte, state dBytesAttachState) []byte {
+	if d.h.ZeroCopy && state < dBytesAttachViewZerocopy && len(in) > 0 {
+		out := make([]byte, len(in))
+		copy(out, in)
+		return out
+	}
+	return in
+}
+
 func (d *decoderBase) attachState(usingBufFromReader bool) (r dBytesAttachState) {
 	if usingBufFromReader {
 		r = dBytesAttachBuffer
